@@ -349,7 +349,7 @@ example : dirHashsums demoLib sha256 tOutside = .error .valueError :=
     (some [0x78]) (by decide) (by decide)
 
 example : dirHashsums demoLib "md5".toList tSym = .error .valueError :=
-  unsupported_alg_rejected demoLib _ tSym tSym_wf [['f']] _ (by decide) (by decide)
+  unsupported_alg_rejected demoLib _ tSym tSym_wf [['f']] [0x78, 0x79, 0x7a] (by decide) (by decide)
 
 example : hashsum demoLib [1, 2, 3, 4, 5] sha256 = .ok (oneShot demoLib sha256 [1, 2, 3, 4, 5]) :=
   (hashsum_is_standard_digest demoLib demoLib_streaming sha256 (by decide) _).1
